@@ -157,6 +157,15 @@ def build_family(tier, seed):
                 cases.append(dict(a=a2, ops=tuple(ol)))
                 for k in (0, 1, 2):
                     cases.append(dict(a=dict(a2, drop_after_k=(k,)), ops=tuple(ol)))
+        # matrices with unequal sector ranks for the decompositions (bond limits that do not divide evenly)
+        uni = fam.UNIVERSE[sym]
+        mt = [((uni[0], 1), (uni[1], 2)), ((uni[0], 2), (uni[1], 1)), ((uni[0], 2), (uni[1], 2)), ((uni[0], 3), (uni[1], 1))]
+        for a in fam.array_specs(sym, 2, mt, fermionic=fermionic, generic=generic, sparsity_threshold=2, phases=False, rng=rng, labels=(7,)):
+            if len(cases) % 3 == 0:
+                for o in (("svd_truncated", (1,)), ("svd_truncated", (2,)), ("svd_truncated", (3,)), ("qr", (False,)), ("svd", ())):
+                    cases.append(dict(a=a, ops=(o,)))
+            else:
+                cases.append(dict(a=a, ops=(("svd_truncated", (2 + len(cases) % 2,)),)))
         cases, ex = fam.thin(cases, 7000 if not thorough else 70000, seed)
         groups[f"unary/{nm}"] = ([dict(body="body_unary", spec=c, sample=(i % 2500 == 0), seed=seed + i) for i, c in enumerate(cases)], False)
         # binary
